@@ -71,4 +71,51 @@ def saturatingPow (bits a e : Nat) : Nat :=
   | (x, false) => x
   | (_, true) => 2 ^ bits - 1
 
+/-! ### independent executable spec used by the driver's spec column
+
+`a^e` cannot be computed for a 4096-bit exponent; `specPow` returns `(a^e mod m, min (a^e) m)` by a
+most-significant-bit-first square-and-multiply in which the true value is tracked **saturated at `m`**
+(a different algorithm from the code's least-significant-bit-first loop with two flags).
+`Lemmas/C13Spec.lean` proves `specPow m a e = (a^e % m, min (a^e) m)`. -/
+
+def specStep (m a : Nat) (vc : Nat × Nat) (b : Bool) : Nat × Nat :=
+  let v := vc.1 * vc.1 % m
+  let c := min (vc.2 * vc.2) m
+  if b then (v * a % m, min (c * a) m) else (v, c)
+
+def specGo (m a e : Nat) : Nat → Nat × Nat → Nat × Nat
+  | 0, s => s
+  | i + 1, s => specGo m a e i (specStep m a s ((e / 2 ^ i) % 2 == 1))
+
+def specPow (m a e : Nat) : Nat × Nat := specGo m a e (Nat.log2 e + 1) (1 % m, min 1 m)
+
+/-! ### `approx_pow2`: integer post-processing
+
+libm is not modelled: `approx_pow2(exp)` computes `bits = (exp.fract().exp2() * 2^63) as u64` and
+`shift = exp.trunc()`; everything after that is integer arithmetic and is mirrored here
+(`try_from`, `checked_shl` with the repaired C05 flag semantics, the round-to-nearest right shift). -/
+
+/-- the integer part of `approx_pow2` after `bits` (`mant`, a `u64`) and `shift` are known. -/
+def approxPow2Post (bits mant shift : Nat) : Option Nat :=
+  if shift ≥ 63 then
+    -- `Self::try_from(bits).ok()?.checked_shl(shift - 63)?`
+    if mant < 2 ^ bits then
+      let v := mant * 2 ^ (shift - 63)
+      if v < 2 ^ bits then some v else none
+    else none
+  else
+    -- `(bits >> shift') + ((bits >> (shift' - 1)) & 1)`, `shift' = 63 - shift`; `Self::try_from(..).ok()`
+    let sh := 63 - shift
+    let b := mant / 2 ^ sh + (mant / 2 ^ (sh - 1)) % 2
+    if b < 2 ^ bits then some b else none
+
+/-- `approx_pow2(n as f64)` for an integer `n`: the float comparisons `exp < ln2(1.5)`, `exp < -1.0`,
+    `exp > BITS` on an integer-valued `exp`, `fract = 0`, `exp2(0) = 1` hence `bits = 2^63`. -/
+def approxPow2Int (bits : Nat) (n : Int) : Option Nat :=
+  if n ≤ 0 then
+    if n < -1 then some 0
+    else if 1 < 2 ^ bits then some 1 else none       -- `Self::try_from(1).ok()`
+  else if n > (bits : Int) then none
+  else approxPow2Post bits (2 ^ 63) n.toNat
+
 end Ruint.Pow
